@@ -45,6 +45,9 @@ func VerifAlloc(arg string) {
 		vAssert("C07/zero-memory-means-unlimited", vImplies(memReq == 0, c == math.MaxInt))
 	}
 
+	if numa && bind {
+		vNoSample() // NUMA plan order follows Go's random map order natively
+	}
 	resp, err := p.CalculateDeploy(ctx, "node", count, raw)
 	vCover("alloc-accepted", err == nil)
 	vCover("alloc-refused", err != nil)
